@@ -35,9 +35,10 @@ var (
 )
 
 type ddlEntry struct {
-	name  string
-	file  *ddl.File
-	class string
+	name     string
+	fileName string // the HDF5 file the DDL describes
+	file     *ddl.File
+	class    string
 }
 
 func corpusInit() {
@@ -76,7 +77,7 @@ func corpusInit() {
 			if fn == "" {
 				continue
 			}
-			ddlByFile[fn] = append(ddlByFile[fn], &ddlEntry{name: e.Name(), file: f, class: cl})
+			ddlByFile[fn] = append(ddlByFile[fn], &ddlEntry{name: e.Name(), fileName: fn, file: f, class: cl})
 		}
 	})
 }
@@ -397,7 +398,7 @@ func c06VsDDL(c *ev.Ctx, dp *dump.Dump, e *ddlEntry, sf *specdec.File, wit func(
 					if pp == "" {
 						pp = "/"
 					}
-					c.Violation("member-missing:"+k+":"+groupStorage(sf, pp), wit(p, map[string]any{"ddl": e.name}))
+					c.Violation("member-missing:"+k+":"+groupStorage(sf, pp)+":"+filepath.Base(e.fileName)+":"+pp, wit(p, map[string]any{"ddl": e.name}))
 				}
 			}
 			return
@@ -417,7 +418,7 @@ func c06VsDDL(c *ev.Ctx, dp *dump.Dump, e *ddlEntry, sf *specdec.File, wit func(
 				if pp == "" {
 					pp = "/"
 				}
-				c.Violation("member-missing:"+kind+":"+groupStorage(sf, pp), wit(p, map[string]any{"ddl": e.name}))
+				c.Violation("member-missing:"+kind+":"+groupStorage(sf, pp)+":"+filepath.Base(e.fileName)+":"+pp, wit(p, map[string]any{"ddl": e.name}))
 			} else {
 				c.Count("ddl_objects_under_unlisted_parent", 1)
 			}
@@ -429,7 +430,21 @@ func c06VsDDL(c *ev.Ctx, dp *dump.Dump, e *ddlEntry, sf *specdec.File, wit func(
 			return
 		}
 		if n.HardlinkTo != "" {
-			return // content shown under the other path
+			// content shown under the other path: the reader must present the same object there
+			if t := libLookup(dp, n.HardlinkTo); t != nil && t.Kind == o.Kind {
+				c.Count("ddl_hardlinks_compared", 1)
+				if o.Kind == "group" {
+					a, b := append([]string(nil), o.Children...), append([]string(nil), t.Children...)
+					sort.Strings(a)
+					sort.Strings(b)
+					if strings.Join(a, "\x00") != strings.Join(b, "\x00") {
+						c.Violation("hardlink-group-members-differ:"+groupStorage(sf, n.HardlinkTo), wit(p, map[string]any{"ddl": e.name, "target": n.HardlinkTo, "members_here": a, "members_at_target": b}))
+					}
+				} else if o.Kind == "dataset" && o.Addr != t.Addr {
+					c.Violation("hardlink-different-object", wit(p, map[string]any{"ddl": e.name, "target": n.HardlinkTo}))
+				}
+			}
+			return
 		}
 		// attributes
 		c06Attrs(c, o, n, e, sf, wit)
@@ -624,7 +639,9 @@ func c06Attrs(c *ev.Ctx, o *dump.Obj, n *ddl.Node, e *ddlEntry, sf *specdec.File
 	for _, an := range want {
 		a, ok := have[an.Name]
 		if !ok {
-			c.Violation("attr-missing:"+map[bool]string{true: "root-group", false: o.Kind}[o.Path == "/"]+":"+attrStorage(sf, o.Path), wit(o.Path+"@"+an.Name, map[string]any{"ddl": e.name, "reader_attrs": len(o.Attrs), "reference_attrs": len(want)}))
+			// keyed by the object: a listed finding names the objects it concerns, an attribute
+			// that goes missing anywhere else is a new violation
+			c.Violation("attr-missing:"+map[bool]string{true: "root-group", false: o.Kind}[o.Path == "/"]+":"+attrStorage(sf, o.Path)+":"+filepath.Base(e.fileName)+":"+o.Path, wit(o.Path+"@"+an.Name, map[string]any{"ddl": e.name, "reader_attrs": len(o.Attrs), "reference_attrs": len(want)}))
 			continue
 		}
 		c.Count("ddl_attributes", 1)
